@@ -9,7 +9,7 @@ KIND = {"access": "KAccess", "rate": "KRate", "jwt": "KJwt", "basic": "KBasic", 
         "emtls": "KEgressMTLS", "oidc": "KOidc", "apikey": "KApiKey", "waf": "KWaf", "none": "KNone"}
 STYPE = {"tls": "TyTLS", "ca": "TyCA", "jwk": "TyJWK", "htpasswd": "TyHtpasswd", "oidc": "TyOIDC",
          "apikey": "TyAPIKey", "opaque": "TyOther"}
-SINGLE = {"jwt", "basic", "imtls", "emtls", "oidc", "waf"}     # kinds whose duplicate is ignored with a warning
+KCODE = {1: "access", 2: "rate", 3: "jwt", 4: "basic", 5: "imtls", 6: "emtls", 7: "oidc", 8: "apikey", 9: "waf", 10: "none"}
 
 
 def cq_packed(b):
@@ -134,43 +134,16 @@ def slim(c):
     return d
 
 
-def scope_refs(c, sid):
-    """policy references (input form) of a scope id, for classification"""
+def scope_shape(c, sid):
     vs = c["world"]["vs"]
-    if sid == "spec":
-        return vs.get("policies") or [], vs["ns"]
-    if sid.startswith("route:"):
-        for r in vs["routes"]:
-            if "route:" + r["path"] == sid:
-                return r.get("policies") or [], vs["ns"]
-    if sid.startswith("sub:"):
-        for v in vs.get("vsrs") or []:
-            key = v["ns"] + "/" + v["name"]
-            for s in v["subroutes"]:
-                if "sub:%s:%s" % (key, s["path"]) == sid:
-                    if s.get("policies"):
-                        return s["policies"], v["ns"]
-                    inh = []
-                    for r in vs["routes"]:
-                        if r.get("vsr") == key and r.get("policies"):
-                            inh = r["policies"]
-                    return inh, vs["ns"]
-    return [], vs["ns"]
-
-
-def shadow_kinds(c, sid):
-    """kinds of single-instance policies referenced more than once in the scope (resolved in the cluster)"""
-    refs, owner = scope_refs(c, sid)
-    pols = {p["ns"] + "/" + p["name"]: p for p in c["world"].get("policies") or []}
-    seen, dup = set(), set()
-    for r in refs:
-        p = pols.get((r.get("ns") or owner) + "/" + r["name"])
-        if p is None:
-            continue
-        if p["kind"] in seen and p["kind"] in SINGLE:
-            dup.add(p["kind"])
-        seen.add(p["kind"])
-    return sorted(dup)
+    for r in vs.get("routes") or []:
+        if "route:" + r["path"] == sid:
+            return r["shape"]
+    for v in vs.get("vsrs") or []:
+        for s in v["subroutes"]:
+            if "sub:%s/%s:%s" % (v["ns"], v["name"], s["path"]) == sid:
+                return s["shape"]
+    return ""
 
 
 def judge(run, cases, rows, verbose=False):
@@ -209,22 +182,23 @@ def judge(run, cases, rows, verbose=False):
         det = row[5:]
         if c["fam"] == "vs":
             scopes = o["scopes"]
-            per = [det[6 * i:6 * i + 6] for i in range(len(scopes))]
-            tls_req, tls_rej, tls_agree = det[6 * len(scopes):6 * len(scopes) + 3]
+            per = [det[8 * i:8 * i + 8] for i in range(len(scopes))]
+            tls_req, tls_rej, tls_agree = det[8 * len(scopes):8 * len(scopes) + 3]
             if verbose:
                 for s, p in zip(scopes, per):
-                    print("  scope %-28s must_fail=%d closed=%d reaches_pass=%d model_err=%d impl_err=%d flags_agree=%d impl_flags=%s"
-                          % (s["id"], p[0], p[1], p[2], p[3], p[4], p[5], s.get("flags")))
+                    print("  scope %-28s must_fail=%d (not shadowed=%d, shadowed kind=%s) closed=%d reaches_pass=%d model_err=%d impl_err=%d flags_agree=%d impl_flags=%s"
+                          % (s["id"], p[0], p[1], KCODE.get(p[2], "-"), p[3], p[4], p[5], p[6], p[7], s.get("flags")))
                 print("  tls: required_reject=%d rejects=%d model_agrees=%d impl=%s" % (tls_req, tls_rej, tls_agree, o.get("ssl")))
             for s, p in zip(scopes, per):
-                must, closed, reaches, merr, oerr, fa = p
+                must, must_u, shk, closed, reaches, merr, oerr, fa = p
                 run.cov["scopes_checked"] = run.cov.get("scopes_checked", 0) + 1
                 if must:
                     run.cov["scopes_that_must_fail"] = run.cov.get("scopes_that_must_fail", 0) + 1
                 if must and not closed:
-                    sk = shadow_kinds(c, s["id"])
-                    sig = {"kind": "scope-open", "cause": "shadowed-duplicate" if sk else "other",
-                           "policy": ",".join(sk) if sk else (c.get("gen") or {}).get("kind", "?")}
+                    # shadowed: every unusable reference of the scope comes after a usable-looking policy of its own kind
+                    shadowed = not must_u and shk != 0
+                    sig = {"kind": "scope-open", "cause": "shadowed-duplicate" if shadowed else "other",
+                           "policy": KCODE.get(shk, "?") if shadowed else (c.get("gen") or {}).get("kind", "?")}
                     run.failing(sig, [slim(c)],
                                 "scope %s of case %d references an unusable policy but the rendered scope does not fail closed "
                                 "(impl error return=%d, reaches proxy_pass=%d, cause %s %s; gen=%s)"
@@ -234,11 +208,14 @@ def judge(run, cases, rows, verbose=False):
                     run.failing({"kind": "error-return-not-rendered", "scope": s["id"].split(":")[0]}, [slim(c)],
                                 "scope %s of case %d carries PoliciesErrorReturn but the rendered block is not closed" % (s["id"], cid),
                                 theorem="Policies.Spec.scope_fails_closed on the real output")
-                elif not oerr and not merr and not reaches and s["id"] != "spec":
-                    shape = [r for r in (c["world"]["vs"]["routes"] or []) if "route:" + r["path"] == s["id"]]
-                    if not shape or shape[0]["shape"] in ("pass", "splits", "matches"):
-                        # a scope nobody failed should still reach its upstream: guards S against vacuity
-                        pass
+                elif not oerr and not merr and not reaches and s["id"] != "spec" and not scopes[0]["err"] and scope_shape(c, s["id"]) in ("pass", "splits", "matches", "grpc", "errpage"):
+                    # a scope nobody failed must still reach its upstream, otherwise `closed` would be vacuous
+                    run.failing({"kind": "control-scope-unreachable", "scope": s["id"].split(":")[0]}, [slim(c)],
+                                "scope %s of case %d did not fail, yet no proxy_pass is reachable from its entry location in the rendered file "
+                                "(the reachability analysis of Policies.Spec no longer understands the template output)" % (s["id"], cid),
+                                theorem="Policies.Spec.scope_reaches_pass (non-vacuity of S)", found_input=False)
+                if not must and not oerr and s["id"] != "spec":
+                    run.cov["open_scopes_reaching_upstream"] = run.cov.get("open_scopes_reaching_upstream", 0) + (1 if reaches else 0)
                 if merr != oerr or not fa:
                     run.failing({"kind": "correspondence", "what": "scope-outcome", "scope": s["id"].split(":")[0]}, [slim(c)],
                                 "model and implementation disagree on scope %s of case %d: model err=%d impl err=%d flags agree=%d impl flags=%s gen=%s"
@@ -248,7 +225,7 @@ def judge(run, cases, rows, verbose=False):
                 run.failing({"kind": "tls-not-rejected", "fam": "vs", "mode": (c.get("gen") or {}).get("mode", "?")}, [slim(c)],
                             "VirtualServer host with an unusable TLS secret does not reject handshakes (case %d, impl ssl=%s)" % (cid, o.get("ssl")),
                             theorem="Policies.Spec.tls_rejects on the real output")
-            elif not spec and all(not (p[0] and not p[1]) for p in per):
+            elif not spec and all(not (p[0] and not p[3]) for p in per):
                 run.failing({"kind": "tls-certificate", "fam": "vs"}, [slim(c)],
                             "VirtualServer host: the certificate the model expects is not the one served (case %d, impl ssl=%s)" % (cid, o.get("ssl")),
                             theorem="Policies.Spec.serves_cert on the real output")
@@ -294,6 +271,10 @@ TRUSTED = [
 
 def check(run):
     n = 120 if run.tier == "quick" else 3000
+    rc, log = C.coq_make(only=["Base", "Lex", "Policies", "Properties/C08.v"], tag="c08", timeout=1500)
+    if rc != 0:
+        run.failing({"kind": "proof-broken", "what": "make"}, [], "the Policies development no longer builds: %s" % log[-1200:],
+                    theorem="coq/Policies", found_input=False)
     run.proof_obligations()
     binary = C.go_build("c08")
     out = os.path.join(C.WORK, "cases", "c08_%s.jsonl" % run.tier)
@@ -324,7 +305,7 @@ def check(run):
                        "other supported types, other type and invalid; ingressMTLS without TLS; a second OIDC policy; tiered rate limits with conflicting defaults; APPolicy / "
                        "APLogConf missing / invalid; bundle / log bundle missing) x position (alone, after a valid accessControl policy, before one, after a valid policy of the "
                        "same kind) x edition (OSS, Plus): ALL combinations, each through the real Configuration, createVirtualServerEx, Configurator and template; route shape "
-                       "(pass, splits, matches, return) drawn per case.  vstls / ing: VirtualServer, regular Ingress and master+minion hosts x 13 TLS secret states; Ingress JWT / "
+                       "(pass, splits, matches, return, gRPC upstream, pass with error pages for 500/502/503) drawn per case.  vstls / ing: VirtualServer, regular Ingress and master+minion hosts x 13 TLS secret states; Ingress JWT / "
                        "basic auth (on the Ingress, the master, the minion) x 11 secret states.  random: 1-2 routes + optional VirtualServerRoute with 1-2 subroutes, 0-6 "
                        "references per scope from a pool of 18 policies in random states.  A case is distinct by its world; non-trivial = some scope must fail or TLS must reject.")
     run.cov["trusted_base"] = TRUSTED
